@@ -125,6 +125,10 @@ def ob_normbase(K, M):
     return Obligation('HMF.normbase K=%d M=%d' % (K, M), fn, bounds='every non-zero component matrix', solver_timeout_ms=120000)
 
 
+ATTRS = ('acoeff', 'chi2', 'yfit', 'dof', 'covar', 'var')
+READ_ORDERS = [ATTRS, ATTRS[::-1], ('var', 'yfit', 'covar', 'chi2', 'dof', 'acoeff'), ('yfit', 'var', 'chi2', 'acoeff', 'covar', 'dof')]
+
+
 def ob_chi2(extra_zero_weight):
     """computechi2 on a 2-parameter system given through its decomposition: M = diag(sigma) V^T with V a
     rotation (rational parametrisation by t) and sigma0 >= sigma1 > 0 symbolic, weights symbolic positive,
@@ -154,7 +158,16 @@ def ob_chi2(extra_zero_weight):
         symnp.SVD_HINTS[:] = [(U, [s0 * s0, s1 * s1], Vh)]
         try:
             fit = computechi2(symnp.rarray(b), symnp.rarray(sq), symnp.rarray(A))
-            acoeff, chi2, yfit, dof, covar, var = fit.acoeff, fit.chi2, fit.yfit, fit.dof, fit.covar, fit.var
+            # the results are lazy properties of one object: the order in which a caller reads them is a choice made
+            # by the solver (the listed orders contain every ordered pair of attributes), and each is read a second time
+            order = READ_ORDERS[int(ctx.int('read_order', 0, len(READ_ORDERS) - 1))]
+            d = dict(d, read_order=list(order))
+            ctx.detail = d
+            first = {}
+            for name in order:
+                first[name] = getattr(fit, name)
+            acoeff, chi2, yfit, dof, covar, var = (first[k] for k in ATTRS)
+            again = {name: getattr(fit, name) for name in ATTRS}
         finally:
             symnp.SVD_HINTS[:] = []
         n = len(b)
@@ -176,6 +189,12 @@ def ob_chi2(extra_zero_weight):
                 prod = sum((R.lift(covar[a_, j]) * mm[j][b_] for j in range(2)), R(Fraction(0)))
                 ctx.require(zt(prod) == (1 if a_ == b_ else 0), 'computechi2: covariance is the inverse of A^T W A', dict(d, i=a_, j=b_))
             ctx.require(zt(R.lift(var[a_])) == zt(R.lift(covar[a_, a_])), 'computechi2: variances are the diagonal of the covariance', dict(d, i=a_))
+        for name in ('acoeff', 'yfit', 'var'):
+            for u, v in zip(np.asarray(first[name], dtype=object).reshape(-1), np.asarray(again[name], dtype=object).reshape(-1)):
+                ctx.require(zt(R.lift(u)) == zt(R.lift(v)), 'computechi2: reading a result a second time gives the same value', dict(d, attr=name))
+        for u, v in zip(np.asarray(covar, dtype=object).reshape(-1), np.asarray(again['covar'], dtype=object).reshape(-1)):
+            ctx.require(zt(R.lift(u)) == zt(R.lift(v)), 'computechi2: reading a result a second time gives the same value', dict(d, attr='covar'))
+        ctx.require(zt(R.lift(chi2)) == zt(R.lift(again['chi2'])), 'computechi2: reading a result a second time gives the same value', dict(d, attr='chi2'))
     return Obligation('computechi2 2 parameters extra_zero_weight=%d' % extra_zero_weight, fn, solver_timeout_ms=120000,
                       bounds='every full-rank 2x2 weighted system (rotation parameter |t| <= 2, every sigma0 >= sigma1 > 0, every positive weight, every b)')
 
@@ -231,7 +250,16 @@ def replay(rec):
             A = np.vstack([A, [3.0, -3.5]])
             sq = np.append(sq, 0.0)
         fit = computechi2(b, sq, A)
-        chi2_first = float(fit.chi2)          # same order of use as the symbolic run: chi2 is read before yfit
+        order = d.get('read_order') or READ_ORDERS[int(inp.get('read_order', 0))]
+        first = {}
+        for name in order:                    # same order of use as the symbolic run
+            v = getattr(fit, name)
+            first[name] = np.array(v, dtype=float).copy() if name != 'dof' else int(v)
+        chi2_first = float(first['chi2'])
+        for name in ATTRS:
+            if name != 'dof' and np.abs(np.asarray(getattr(fit, name), dtype=float) - first[name]).max() > 1e-9 * max(1e-300, np.abs(first[name]).max()):
+                return True
+        fit = type('First', (), first)()
         M = A * sq[:, None]
         mm = M.T @ M
         scale = np.abs(mm).max()
